@@ -248,3 +248,38 @@ def r2f_no_whole_value_insert(ctx):
                 r.ok(sample={"write": key})
     r.floor("writes to appended per-file maps", n, 4)
     return r
+
+
+def r2g_canonicaliser_whole_path(ctx):
+    r = Result("R2g", "the caching canonicaliser (found by role: calls Path::canonicalize and stores into a DashMap<PathBuf, PathBuf>) "
+                      "returns the canonical form of the WHOLE path: no path-composition call (join / push / with_file_name / "
+                      "with_extension) occurs in the backward slice of its result; a canonical directory joined with a file name is "
+                      "not canonical when the file itself is a symlink, so the scan and did_open key one document differently")
+    import re
+    from .r3 import _slice_calls
+    db = _db(ctx)
+    crate = ctx.bin
+    pp_maps = {m for m, (k, v) in db.maps.items() if k == "std::path::PathBuf" and v == "std::path::PathBuf"}
+    n = 0
+    for f in crate.real_fns():
+        if f.kind not in ("fn", "method") or "PathBuf" not in f.ret:
+            continue
+        fam = [g for g in crate.real_fns() if g.root == f.id]
+        if not any(re.search(r"Path::canonicalize$|fs::canonicalize$", c.get("res") or "") for g in fam for _b, c in g.calls()):
+            continue
+        if not any(op.fn.root == f.id and op.method == "insert" for m in pp_maps for op in db.ops_by_map.get(m, [])):
+            continue
+        n += 1
+        calls = _slice_calls(crate, f, ["cp", 0])
+        # closures nested deeper than one level
+        for g in fam:
+            if g.id != f.id and any(g.id in x for x in calls) is False:
+                pass
+        comp = sorted(x.split("::")[-1] for x in calls if re.search(r"path::Path::(join|with_file_name|with_extension)$|path::PathBuf::(push|set_file_name)$", x or ""))
+        key = "R2g|%s" % f.id
+        if comp:
+            r.violate(key, "%s assembles its result with %s: the result is not the canonical form of the whole path" % (f.id, comp))
+        else:
+            r.ok(sample={"canonicaliser": f.id, "calls_in_result_slice": len(calls)})
+    r.floor("caching canonicalisers", n, 1)
+    return r
